@@ -71,6 +71,17 @@ def oracle_repr(c6, r):
     raise ValueError(r)
 
 
+def modulus_tol(style, val, cond, smax, cmax, dz=0.0):
+    """Bound on a computed Voigt/Reuss/Hill modulus.  Voigt sums nine entries of C.  Reuss is the reciprocal of a
+    weighted sum (weights adding up to <= 10) of entries of S = inv(C), each known to cond*eps*Smax, so that
+    d(1/K_R) <= 10 dS and dK_R <= 10 K_R^2 dS - the cancellation in that sum (near-incompressible solids) is what
+    makes the Reuss moduli sensitive like cond^2.  dz: relative perturbation of the entries of C themselves."""
+    dS = (1e-13 * cond + 40 * cond * dz) * smax
+    v = (1e-13 + 10 * dz) * cmax
+    r = 10 * val * val * dS + 1e-13 * abs(val)
+    return {'Voigt': v, 'Reuss': r, 'Hill': v + r}[style]
+
+
 def invariance_defect(c6, group):
     c6 = np.asarray(c6, float)
     return max([float(np.abs(O.rotate_voigt(c6, g) - c6).max()) for g in O.GENERATORS[group]] + [0.0])
@@ -120,7 +131,7 @@ def install_monitors(rec, EC):
             if k is None:
                 return
             exp = O.vrh(c)[(which, style)]
-            rec.close(1e-13 * k * abs(exp), result, exp,
+            rec.close(modulus_tol(style, exp, k, np.abs(O.compliance6(c)).max(), np.abs(c).max()), result, exp,
                       f'monitor: {which}() equals the isotropic projection of C (Voigt), of S (Reuss), their mean (Hill)',
                       f'monitor:{which}:{style}')
         return post
@@ -520,7 +531,7 @@ def check_transform(ctx, C, case, R1, R2, eps, rotc, as_list):
         for which in ('bulk', 'shear'):
             for style in ('Voigt', 'Reuss', 'Hill'):
                 a, b = getattr(T1, which)(style), getattr(C, which)(style)
-                tol = (dC if style == 'Voigt' else 20 * case.cond * dC) + 1e-13 * case.cond * abs(b)
+                tol = (dC if style == 'Voigt' else 20 * case.cond * dC) + 8 * modulus_tol(style, b, case.cond, case.smax, cmax)    # Voigt condition number grows <= 4x on rotation
                 rec.close(tol, a, b, f'{style} {which} modulus is unchanged by transform', f'transform:moduli:{which}:{style}', rotation=rotc)
         rec.count('moduli-invariance')
 
@@ -533,10 +544,11 @@ def check_moduli(ctx, C, case):
             vals = {}
             for style in ('Voigt', 'Reuss', 'Hill'):
                 vals[style] = getattr(C, which)(style)
-                tol = (1e-13 * case.cond + 40 * case.cond * case.dz) * abs(ref[which, style])
+                tol = modulus_tol(style, ref[which, style], case.cond, case.smax, case.cmax, case.dz)
                 rec.close(tol, vals[style], ref[which, style], f'{which}({style}) equals the oracle\'s tensor contraction', f'moduli:{which}:{style}')
             rec.close(1e-14 * abs(vals['Hill']), getattr(C, which)(), vals['Hill'], f'{which}() defaults to Hill', f'moduli:{which}:default')
-            rec.check(vals['Reuss'] <= vals['Voigt'] * (1 + 1e-12 * case.cond), f'Reuss {which} <= Voigt {which}', f'moduli:{which}:order')
+            slack = modulus_tol('Hill', ref[which, 'Reuss'], case.cond, case.smax, case.cmax, case.dz)
+            rec.check(vals['Reuss'] <= vals['Voigt'] + 2 * slack, f'Reuss {which} <= Voigt {which}', f'moduli:{which}:order')
 
 
 OWN_SYSTEM = {'isotropic': 'isotropic', 'cubic': 'cubic', 'hexagonal': 'hexagonal', 'tetragonal-4': 'tetragonal',
@@ -618,9 +630,11 @@ def run_iso_case(ctx, EC, i):
     rec.close(bound, got, c6, 'the pair reproduces C(lambda, mu) = lambda dd + mu (dd + dd)', f'iso:pair:{pname}', nu=nu, given=kw, lam=lam, mu=mu)
     with ctx.guard('moduli of an isotropic tensor', f'iso:moduli:{pname}'):
         relb = bound / cmax
+        kc = max(O.cond6(c6), 10.0)
+        sm = float(np.abs(O.compliance6(c6)).max())
         for style in ('Voigt', 'Reuss', 'Hill'):
-            rec.close(30 * relb * max(mod['K'], mu) * 10, C.bulk(style), mod['K'], 'every bulk estimate of an isotropic tensor is K', f'iso:bulk:{pname}')
-            rec.close(30 * relb * max(mod['K'], mu) * 10, C.shear(style), mu, 'every shear estimate of an isotropic tensor is mu', f'iso:shear:{pname}')
+            rec.close(modulus_tol(style, mod['K'], kc, sm, cmax, relb), C.bulk(style), mod['K'], 'every bulk estimate of an isotropic tensor is K', f'iso:bulk:{pname}')
+            rec.close(modulus_tol(style, mu, kc, sm, cmax, relb), C.shear(style), mu, 'every shear estimate of an isotropic tensor is mu', f'iso:shear:{pname}')
     with ctx.guard('invariance of an isotropic tensor', f'iso:invariant:{pname}'):
         R = O.random_rotation(rng)
         rec.close(ztol(c6, THR_TRF, extra=20 * bound), C.transform(R).Cij, c6, 'an isotropic tensor is unchanged by any rotation', f'iso:invariant:{pname}')
@@ -635,9 +649,9 @@ def run(ctx):
     cover.start([FILE, 'atomman/tools/axes_check.py'])
     install_monitors(rec, EC)
 
-    for i in ctx.cases('tensors', ctx.pick(960, 16000)):
+    for i in ctx.cases('tensors', ctx.pick(960, 10000)):
         run_tensor_case(ctx, EC, i)
-    for i in ctx.cases('isotropic', ctx.pick(900, 9000)):
+    for i in ctx.cases('isotropic', ctx.pick(900, 4500)):
         run_iso_case(ctx, EC, i)
 
     for k, v in monitor.calls.items():
